@@ -508,7 +508,8 @@ pub fn run_check<P: Property>(p: &P, opts: &RunOpts) -> i32 {
             "seeds_per_hour": if wall > 0.0 { (sh.evaluations as f64 / wall * 3600.0) as u64 } else { 0 },
             "counters": sh.counters,
             "distinct_states": sh.states.len(),
-            "states_measure": "distinct feature vectors, see rule",
+            "states_measure": "distinct feature vectors (e.g. restore depth x open conditionals x open streams x format), see rule",
+            "simulated_time": "not applicable: nothing in the simulated system has timers or deadlines (the wall clock is read once at boot and is a job input); progress is counted in executed lines, checkpoints and restarts (see counters)",
             "known_findings_matched_in_search": sh.known,
             "known_finding_lines": known_lines,
             "components": p.components(),
